@@ -78,7 +78,7 @@ def _same(a, b):
     return None
 
 
-def _schedules(ctx, rep, n, nperm, nsalt, pnames=('basic', 'noswitch-projected', 'fleet')):
+def _schedules(ctx, rep, n, nperm, nsalt, pnames=('basic', 'projheavy', 'fleet', 'pymods')):
     for pname in pnames:
         p = dict(F.PARAM_SETS[pname], nsteps=25)
         base = ctx.sub_rnd('sched', pname).randrange(10 ** 9)
